@@ -128,7 +128,7 @@ func checkC17(c *Ctx) {
 		}
 	}
 	sampleAt := len(progs) - 1
-	for i := 0; i < 2+per/100; i++ { // after the others, so that their programs do not depend on this generator
+	for i := 0; i < 2; i++ { // after the others, so that their programs do not depend on this generator
 		progs = append(progs, genBigScanProgram(r))
 	}
 	for _, p := range progs {
